@@ -3,6 +3,8 @@
 # certain rights in this software.
 """Expand all macros in place in a Circuit."""
 
+from numbers import Integral, Real
+
 from typing import Dict
 
 from jaqalpaq.error import JaqalError
@@ -178,6 +180,12 @@ class GateReplacer(Visitor):
 def filter_float(value):
     """Change a floating point value that represents an integer into an
     integer."""
-    if isinstance(value, float) and float(value) == int(value):
-        return int(value)
+    # Any real number type will do, e.g. a numpy.float32.
+    if isinstance(value, Real) and not isinstance(value, Integral):
+        try:
+            if value == int(value):
+                return int(value)
+        except (OverflowError, ValueError):
+            # Infinities and nan are not integers.
+            pass
     return value
